@@ -82,9 +82,11 @@ def gen_tie_cases(ck, n):
         # used by the direct oracle (quoted strings stay arbitrary)
         cases.append(cc.gen_nodes(rng, ascii_only=rng.random() < 0.25, clean=i < 0.4 * n))
     out = []
-    for nodes in cases:
+    n_clean = len(CORPUS) + int(0.4 * n)
+    for i, nodes in enumerate(cases):
         nodes = [cc.with_col(s, 0) for s in nodes]
-        out.append({"kind": "tree", "nodes": nodes, "src": cc.to_source(nodes, ck.rng), "tree": cc.expected_tree(nodes)})
+        out.append({"kind": "tree", "nodes": nodes, "src": cc.to_source(nodes, ck.rng), "tree": cc.expected_tree(nodes),
+                    "clean": len(CORPUS) <= i < n_clean})
     return out
 
 
@@ -122,8 +124,11 @@ def tie(ck, pool, cases):
                     ck.disagreements.append({"source": c["src"], "style": st or "expanded", "charset": cs,
                                              "model_text": model, "impl_status": a.get("status"),
                                              "impl_text": impl, "impl_err": (a.get("err") or {}).get("message")})
-            if parts[2] != "1" or parts[3] != "1":
-                # the model's own output fails P̂: a theorem about the model would be false
+            wf, chs, guard, sfree = parts[2:6]
+            ck.hist("tie:guard-treeOk=" + guard)
+            # P̂ on the model's own output: charsetOk always; wellFormed whenever the guard of
+            # C05_blocks_balanced holds; sassFree on the clean (CSS-token) trees
+            if chs != "1" or (guard == "1" and wf != "1") or (c.get("clean") and sfree != "1"):
                 ck.notes.append({"model_output_fails_P": parts[2:], "source": c["src"]})
                 ck.cov["model_disagreements"] += 1
         if len(ck.cov["samples"]) < 3 and nontrivial:
@@ -351,6 +356,7 @@ def run(tier, seed):
         ck.unproved("correspondence-broken", {"why": "runner does not build against /repo", "error": getattr(ck, "build_error", "")})
         return ck.finish()
     pool = RunnerPool()
+    log(f"[C05] proof+build done at {round(__import__('time').time() - ck.t0)}s")
     tcases = gen_tie_cases(ck, n_tie)
     tie(ck, pool, tcases)
     log(f"[C05] tie: {len(tcases)} trees, disagreements={ck.cov['model_disagreements']}")
@@ -363,7 +369,9 @@ def run(tier, seed):
     for i in range(n_prog):
         src = cc.gen_program(ck.rng)
         gprogs.append({"key": "prog:" + str(i), "src": src, "syntax": "scss"})
+    log(f"[C05] gen-tree direct done at {round(__import__('time').time() - ck.t0)}s")
     fails += direct(ck, pool, gprogs, "gen-prog", gate=True)
+    log(f"[C05] gen-prog direct done at {round(__import__('time').time() - ck.t0)}s")
     fails += direct(ck, pool, corpus_progs(ck, tier), "corpus", gate=True)
     log(f"[C05] direct: failures={len(fails)}")
     if (not ck.proof["ok"] or ck.cov["model_disagreements"]) and not fails and tier == "quick":
